@@ -9,6 +9,12 @@ CHECKS = {
  "C20": dict(cat="exploration", tech="bounded-exhaustive enumeration of path spellings (<=3/<=4 segments over an 18-name alphabet, 6 bases, read-only and read-write) against an independent kernel-semantics resolver",
    text="Every spelling within the bound is handed to the real NewPebbleScanner, read-only on the real file system and read-write with Pebble redirected to an in-memory file system (verif hook), and the refusal is compared with an independent resolver. Exhaustive within the bound; the space of spellings is the property's quantifier.",
    note="Trusted: the reference resolver (40 lines, kernel path-walk semantics); the protected list is the one the code documents; '..' after a missing component is skipped.", ref="3/C20"),
+ "C14": dict(cat="exploration", tech="bounded-exhaustive enumeration of mount-request lists (all ordered lists <=3 over a 24-path alphabet x 2 work dirs) through the real generateSpec, and of mount lists <=2 through prepareMountPoints with file-system snapshots",
+   text="Every request list within the bound over a real fixture (nested dirs, file, symlinks, reserved paths in several spellings, ancestors of the sandbox's own mounts) is turned into a spec by the real code and every lock-down clause is checked on it; escape handling is checked with before/after snapshots outside the root. Exhaustive within the alphabet and length bound.",
+   note="Trusted: the clause checker (about 80 lines); the OCI runtime is not exercised, the property is about the generated specification.", ref="3/C14"),
+ "C08": dict(cat="exploration", tech="exhaustive product enumeration (topology grid x 23k-signature database x threshold x tolerance grids) and all signature sets of size <=2 from a 96-signature pool, on the real Pebble and JSON scanners",
+   text="The full product of topology, signature, threshold and tolerance grids is run through both real scanners and each alert list is checked for veto, range, threshold, order, threshold monotonicity and exact-implies-full; signature SETS (every subset of size <=2 of a pool, fresh database each) make alerts interact. Exhaustive over the stated grids.",
+   note="Trusted: 'required call occurs' = substring match; the JSON scanner's tolerance cannot be varied through its API.", ref="3/C08"),
 }
 NOT_YET = {}
 ALL = ["C%02d" % i for i in range(1, 21)]
